@@ -1,6 +1,7 @@
 import MythVerif.Model.Env
 import MythVerif.Model.CpuList
 import MythVerif.Model.InitOnce
+import MythVerif.Model.WorkerBarrier
 import Driver.Util
 /-! `drv_env`: the configuration readers, the CPU-list parser and the init-once transition system
     behind the line protocols of harness/env_unit.c (pure functions), harness/init_proc.c
@@ -185,9 +186,29 @@ def accept (d : DSt) (w : List String) : DSt × String :=
     | none => mism "bad event"
   | _ => mism "bad event"
 
+/-- `r` full rounds of the workers' barrier on the model, arrivals in the order 1..n rotated by the
+    round number, the last arriver flipping, then everybody else waking; `none` if a step is disabled -/
+def wbRounds (n r : Nat) : Option WBarrier.St :=
+  let parts := (List.range n).map (· + 1)
+  (List.range r).foldl (fun (os : Option WBarrier.St) k =>
+    match os with
+    | none => none
+    | some s0 =>
+      let order := (List.range n).map (fun i => (i + k) % n + 1)
+      let arrivals := order.map WBarrier.Lbl.arrive
+      let wakes := (order.take (n - 1)).map WBarrier.Lbl.wake
+      runs WBarrier.step s0 (arrivals ++ wakes)) (some (WBarrier.init parts))
+
 def step (d : DSt) (line : String) : DSt × String :=
   let w := Driver.words line
   match w with
+  | ["wbinit", gp, g0, g1, n] =>
+    let b := WBarrier.barrierInit { n := 0, phase := gp.toNat!, cur0 := g0.toNat!, cur1 := g1.toNat! } n.toNat!
+    (d, s!"wb n={b.n} phase={b.phase} cur={b.cur0},{b.cur1}")
+  | ["wbrounds", n, r] =>
+    match wbRounds n.toNat! r.toNat! with
+    | some s => (d, s!"wb n={s.n} phase={s.phase} cur={s.cur 0},{s.cur 1} rounds={s.gen} ok")
+    | none => (d, "wb model-stuck")
   | ["consts"] =>
     (d, s!"consts defStack={defStack} defGuard={defGuard} defBind={defBind} defChildFirst={defChildFirst} nMaxCpus={nMaxCpus} uninit={sUninit} initializing={sInitializing} initialized={sInitialized} randMax={(2:Nat)^31 - 1}")
   | ["atoi", s] => (d, s!"atoi {match dec s with | some v => atoi v | none => 0}")
